@@ -203,6 +203,69 @@ theorem C18_target_is_xvcpath (cwd : List Str) (t : Str) (ht : ∀ c ∈ splitSl
     joinComps_append cwd (splitSlash t) (splitSlash_ne_nil t), joinComps_splitSlash]
   rfl
 
+/-! ## destinations of copy and move -/
+
+theorem splitSlash_noslash (c : Str) (hc : '/' ∉ c) : splitSlash c = [c] := by
+  induction c with
+  | nil => rfl
+  | cons x xs ih =>
+    have hx : x ≠ '/' := fun e => hc (e ▸ List.mem_cons_self ..)
+    have hxs : '/' ∉ xs := fun h => hc (List.mem_cons_of_mem _ h)
+    unfold splitSlash
+    simp [hx, ih hxs]
+
+theorem splitSlash_append_slash (c : Str) (hc : '/' ∉ c) (rest : Str) :
+    splitSlash (c ++ '/' :: rest) = c :: splitSlash rest := by
+  induction c with
+  | nil => simp [splitSlash]
+  | cons x xs ih =>
+    have hx : x ≠ '/' := fun e => hc (e ▸ List.mem_cons_self ..)
+    have hxs : '/' ∉ xs := fun h => hc (List.mem_cons_of_mem _ h)
+    have : (x :: xs) ++ '/' :: rest = x :: (xs ++ '/' :: rest) := rfl
+    rw [this]
+    have e : splitSlash (x :: (xs ++ '/' :: rest)) =
+        (match splitSlash (xs ++ '/' :: rest) with
+         | [] => [[x]]
+         | w :: ws => (x :: w) :: ws) := by
+      conv => lhs; unfold splitSlash
+      simp [hx]
+    rw [e, ih hxs]
+
+theorem splitSlash_rootTarget (cwd : List Str) (hw : WfCwd cwd) (t : Str) :
+    splitSlash (rootTarget cwd t) = cwd ++ splitSlash t := by
+  unfold rootTarget
+  induction cwd with
+  | nil => rfl
+  | cons c cs ih =>
+    have hc := (hw c (List.mem_cons_self ..)).2
+    have hw' : WfCwd cs := fun x hx => hw x (List.mem_cons_of_mem _ hx)
+    have : (c :: cs) ++ [t] = c :: (cs ++ [t]) := rfl
+    rw [this, joinComps_cons c _ (by simp), splitSlash_append_slash c hc, ih hw']
+    rfl
+
+/-- **C18, destinations.**  The repository path `XvcPath::new` resolves for a destination given in
+    `cwd` is the path it resolves at the root for the root-relative destination (copy, move; file
+    destinations, and — after C18-K9b.patch — directory destinations). -/
+theorem C18_destination_equiv (cwd : List Str) (hw : WfCwd cwd) (hp : ∀ c ∈ cwd, PlainComp c) (d : Str)
+    (hd : ∀ c ∈ splitSlash d, PlainComp c) :
+    xvcPathNew cwd d = xvcPathNew [] (rootTarget cwd d) := by
+  unfold xvcPathNew
+  rw [normalize_plain _ _ hd, splitSlash_rootTarget cwd hw d, List.reverse_reverse, List.reverse_nil]
+  rw [normalize_plain [] (cwd ++ splitSlash d)
+    (fun c hc => by
+      rcases List.mem_append.mp hc with h | h
+      · exact hp c h
+      · exact hd c h)]
+  rfl
+
+/-- **K9b, before C18-K9b.patch**: from `a/b`, the directory destination `dst/` was `dst` at the
+    root of the repository, the file destination `dst/x.txt` was `a/b/dst/x.txt`. -/
+theorem C18_destination_counterexample_before_fix :
+    destPathOld ["a".toList, "b".toList] "dst/".toList = ["dst".toList] ∧
+    destPathOld ["a".toList, "b".toList] "dst/x.txt".toList = ["a".toList, "b".toList, "dst".toList, "x.txt".toList] ∧
+    destPath ["a".toList, "b".toList] "dst/".toList = ["a".toList, "b".toList, "dst".toList] ∧
+    destPath [] "a/b/dst/".toList = ["a".toList, "b".toList, "dst".toList] := by decide
+
 /-! ## non-vacuity -/
 
 example : WfCwd ["a".toList, "b".toList, "c".toList] := by
@@ -271,6 +334,10 @@ open Targets in
 #print axioms C18_no_targets_means_cwd
 open Targets in
 #print axioms C18_target_is_xvcpath
+open Targets in
+#print axioms C18_destination_equiv
+open Targets in
+#print axioms C18_destination_counterexample_before_fix
 open Targets in
 #print axioms C18_store_counterexample_before_fix
 open Targets in
